@@ -215,8 +215,8 @@ def roll_map_push_loops(body, key, root):
                 break
             seen.add(cur)
             for st in blocks[cur]["stmts"]:
-                if st.get("s") == "assign" and st["rv"]["r"] == "use" and st["rv"]["op"]["o"] == "const" and not st["place"]["proj"] and body.locals[st["place"]["l"]]["ty"] == "()":
-                    continue   # unit values of statement expressions
+                if st.get("s") == "assign" and st["rv"]["r"] == "use" and not st["place"]["proj"] and body.locals[st["place"]["l"]]["ty"] == "()":
+                    continue   # unit values of statement expressions (constants, or the push's own `()` handed on)
                 if st.get("s") == "assign":
                     seq.append(("st", st))
                 elif st.get("s") != "other":
@@ -244,11 +244,22 @@ def roll_map_push_loops(body, key, root):
         pa0, pa1 = push["args"]
         if not (pa0["o"] == "move" and not pa0["place"]["proj"] and pa1["o"] in ("move", "copy") and not pa1["place"]["proj"]):
             continue
-        acc_ref = [x[1] for x in seq if x[0] == "st" and x[1]["place"]["l"] == pa0["place"]["l"] and not x[1]["place"]["proj"]]
-        if len(acc_ref) != 1 or acc_ref[0]["rv"]["r"] != "ref" or acc_ref[0]["rv"]["bk"] != "mut":
+        # the statements that compute the accumulator reference (a backward slice from the push's receiver: `&mut v`, or
+        # `&mut *(closure.0)` when the push sits in an inlined `for_each` closure) stay with the caller
+        need = {pa0["place"]["l"]}
+        acc_stmts = []
+        for kind, x in reversed(seq[:-1]):
+            if kind == "st" and not x["place"]["proj"] and x["place"]["l"] in need:
+                acc_stmts.insert(0, x)
+                for pl in _places([x["rv"]]):
+                    need.add(pl["l"])
+        if not acc_stmts or acc_stmts[-1]["place"]["l"] != pa0["place"]["l"] or acc_stmts[-1]["rv"]["r"] != "ref" or acc_stmts[-1]["rv"]["bk"] != "mut":
             continue
-        acc_ref = acc_ref[0]
-        chain = [x for x in seq[:-1] if not (x[0] == "st" and x[1] is acc_ref)]
+        if any(kind == "call" and x["dest"]["l"] in need for kind, x in seq[:-1]):
+            continue   # the receiver depends on a call made in the loop body
+        acc_ids = set(id(x) for x in acc_stmts)
+        acc_ref = acc_stmts[-1]
+        chain = [x for x in seq[:-1] if not (x[0] == "st" and id(x[1]) in acc_ids)]
         # locals of the chain: everything it assigns; it may read only those, the item, and constants
         defined = set()
         for kind, x in chain:
@@ -256,7 +267,13 @@ def roll_map_push_loops(body, key, root):
             if pl["proj"]:
                 ok = False
             defined.add(pl["l"])
-        if not ok or acc_ref["rv"]["place"]["l"] in defined or pa1["place"]["l"] not in defined:
+        if not ok or pa1["place"]["l"] not in defined:
+            continue
+        for x in acc_stmts:   # the receiver is the same in every iteration: nothing of it comes from the item or the chain
+            for pl in _places([x["rv"]]):
+                if pl["l"] in defined or pl["l"] == nloc:
+                    ok = False
+        if not ok:
             continue
 
         def item_place(pl):
@@ -331,7 +348,7 @@ def roll_map_push_loops(body, key, root):
         }
         blocks.append({
             "cleanup": False,
-            "stmts": [copy.deepcopy(acc_ref)],
+            "stmts": [copy.deepcopy(x) for x in acc_stmts],
             "term": {
                 "t": "call",
                 "callee": {"path": "std::iter::Extend::extend", "full": "std::iter::Extend::extend", "args": [], "local": False, "resolved": None, "trait": "std::iter::Extend", "item": "extend", "rolled_from": _callee(push)},
